@@ -6,7 +6,7 @@ M = "xhair.obl.c13"
 def x_obligations(tier):
     o = []
     T = 170 if tier == "quick" else 1200
-    triples = [(0, 1, 4), (4, 4, 0), (1, 2, 3), (3, 0, 1), (2, 2, 2)] if tier == "quick" else [(a, b, c) for a in range(5) for b in range(5) for c in range(5) if (a + 2 * b + c) % 3 == 0]
+    triples = [(0, 1, 4), (4, 4, 0), (1, 2, 3)] if tier == "quick" else [(a, b, c) for a in range(5) for b in range(5) for c in range(5) if (a + 2 * b + c) % 3 == 0]
     for w in ("lru_kw_cache", "lru_cache", "hit_cache"):
         for ms in (1, 2):
             for (m1, m2, m3) in triples:
@@ -15,15 +15,23 @@ def x_obligations(tier):
                 o.append(Obl(f"C13-wrap[{w},cap={ms},styles={m1}{m2}{m3}]", M, "wrap", env={"VF_WRAPPER": w, "VF_MAXSIZE": str(ms), "VF_M1": str(m1), "VF_M2": str(m2), "VF_M3": str(m3)},
                              timeout=T, family="C13-wrap", bound="3-call histories, arguments a<2,b<3,c<2 (third call a<2,b<2), capacity %d" % ms))
     o.append(Obl("C13-hit-falsy", M, "hit_falsy", timeout=T, family="C13-wrap", bound="2-call histories, a<3, b<3"))
-    for i in range(7):
+    for i in (range(7) if tier == "thorough" else (0, 2, 6)):
         o.append(Obl(f"C13-entry-path[sid#{i}]", M, "entry_path", env={"VF_IDX": str(i)}, timeout=T, family="C13-entry", bound="sid.path(c1); sid.path(c2), c in {local, server, None}, positional or keyword"))
     o.append(Obl("C13-entry-from-path", M, "entry_from_path", timeout=T, family="C13-entry", bound="6 paths x 3 x 3 configurations"))
     o.append(Obl("C13-entry-path_to_dict", M, "entry_path_to_dict", timeout=T, family="C13-entry", bound="6 paths x 3 x 3 configurations x 2 x 2 passing styles"))
-    for i in range(6):
+    for i in (range(6) if tier == "thorough" else (1, 2, 5)):
         for (k1, k2) in ([(0, 1)] if tier == "quick" else [(0, 0), (0, 1), (1, 0), (1, 1)]):
             o.append(Obl(f"C13-entry-unfold[search#{i},kw={k1}{k2}]", M, "entry_unfold", env={"VF_IDX": str(i), "VF_KW1": str(k1), "VF_KW2": str(k2)}, timeout=T, family="C13-entry",
                          bound="unfold_search(s, do_uniquify, do_extrapolate) twice, all 16 flag combinations"))
     o.append(Obl("C13-entry-shared", M, "entry_sid_shared", timeout=T, family="C13-entry", bound="7 x 7 Sid strings, mutation of returned dictionaries between calls"))
+    NCALLS = 25
+    for i in range(NCALLS):
+        for first in (("local", "server") if tier == "thorough" or i in (9, 11, 13, 16) else ("local",)):
+            o.append(Obl(f"C13-pair[first={i},loaded-first={first}]", M, "pair", env={"VF_IDX": str(i), "VF_FIRST": first}, timeout=T, family="C13-pair",
+                         bound=f"history (call #{i}, call j) for every j of a 25-call alphabet covering all cached entry points, flags and configurations; path configuration '{first}' loaded first"))
+    if tier == "thorough":
+        for i in range(NCALLS):
+            o.append(Obl(f"C13-triple[first={i}]", M, "triple", env={"VF_IDX": str(i)}, timeout=T, family="C13-pair", bound="histories of 3 calls over the 25-call alphabet"))
     o.append(Obl("C13-reach", M, "reach", timeout=60, expect="refute", family="C13-twin"))
     return o
 
